@@ -460,6 +460,9 @@ func checkC08(p *Prog, r *Report) {
 		}
 	}
 
+	// D11 the application-level export parses foreign store keys with their owner's parser (rawkey.go, finding F15)
+	checkForeignKeysParsedByOwner(p, r, "C08")
+
 	// D10 hand-written JSON decoders of the exported types (jsondecode.go)
 	checkJSONDecoders(p, r, "C08")
 
